@@ -100,6 +100,8 @@ def instr_to_text(ins):
         return " ".join(parts)
     if n in ("mupdate", "params"):
         return n
+    if n == "probe":
+        return "probe %d" % ins[1]
     raise ValueError("unknown instruction %r" % (ins,))
 
 
@@ -246,18 +248,25 @@ def instr_to_coq(ins, tangent=None, dual=False):
 
 
 COQ_HEADER = """From Coq Require Import List Floats.
-From Corgi Require Import Model.Scalar Model.Arr Model.Ops Model.Engine Model.Program.
+From Corgi Require Import Model.Scalar Model.Arr Model.Ops Model.Engine Model.Program Model.Probe.
 Import ListNotations.
 Open Scope float_scope.
 Set Printing Depth 10000000.
 Set Printing Width 200.
-Definition R := @run float float_ops.
+Definition R := @prun float float_ops.
 """
 
 
 COQ_HEADER_DUAL = COQ_HEADER.replace(
-    "Definition R := @run float float_ops.",
-    "Definition R := @run (@dual float) (dual_ops float_ops).")
+    "Definition R := @prun float float_ops.",
+    "Definition R := @prun (@dual float) (dual_ops float_ops).")
+
+
+def pinstr_to_coq(ins, tangent=None, dual=False):
+    """every instruction is wrapped for Model/Probe.v's interpreter: [PI i] runs the model's own [step]"""
+    if ins[0] == "probe":
+        return "PProbe %s" % _cn(ins[1])
+    return "PI (%s)" % instr_to_coq(ins, tangent, dual)
 
 
 def cases_to_coq(cases, dual=False):
@@ -265,10 +274,10 @@ def cases_to_coq(cases, dual=False):
     for c in cases:
         if dual:
             tans = c.get("tangents", {})
-            body = ";\n  ".join(instr_to_coq(ins, tans.get(i), dual=True)
+            body = ";\n  ".join(pinstr_to_coq(ins, tans.get(i), dual=True)
                                 for i, ins in enumerate(c["instrs"]))
         else:
-            body = ";\n  ".join(instr_to_coq(i) for i in c["instrs"])
+            body = ";\n  ".join(pinstr_to_coq(i) for i in c["instrs"])
         out.append("Eval vm_compute in (R [\n  %s]).\n" % body)
     return "\n".join(out)
 
@@ -446,6 +455,8 @@ def first_difference(rust, model, rtol, adjudicate=None, lenient=None):
     for i in range(n):
         a = rust[i] if i < len(rust) else "missing"
         b = model[i] if i < len(model) else "missing"
+        if a == "nohook":
+            continue      # the tree does not build with the verification hook: white-box items are skipped
         if adjudicate is not None and i not in adjudicate and a != "panic" and b != "panic":
             continue
         if lenient is not None and i in lenient and a != "panic" and b != "panic" \
